@@ -138,6 +138,7 @@ pub fn op_short(op: &Op) -> &'static str {
         Op::ClearPending { .. } => "clear",
         Op::Deliver { .. } => "deliver",
         Op::Restart => "restart",
+        Op::MediaDownload { .. } => "media",
         Op::Hostile(_) => "hostile",
         Op::Nop => "nop",
     }
